@@ -9,18 +9,25 @@ from .common import run_model, short
 PROPERTY = "C10"
 LEVEL = "exploration"
 VARIANTS = ("dbg", "rel")
-RULE = ("Hypothesis draws 1-2 objects (list, map, instance), 2-6 aliases of each held in a local, a module variable, a "
-        "field, a list element, a list-in-list element, a map value, a tuple element and a closure capture, inside a "
-        "function or at module level (drawn), then a history of 3-10 mutations through drawn aliases (push of 1-3 "
-        "values so lists cross capacities 4 -> 8 -> 16, insert, pop, index assignment, remove, clear, map set/remove, "
-        "field writes), each followed by 1-3 observations: alias == alias (same and different objects), a map keyed by "
-        "the object read through another alias, list.has/index and tuple.has/index of the object, and content read "
-        "through another alias. Output is compared with the reference evaluator (objects carry an immutable identity) "
-        "on debug and release workers. Non-trivial: a list grew (model: length crossed 4, 8 or 16) while >= 2 aliases "
-        "existed and an identity observation followed, or a map/instance was mutated through one alias and read "
-        "through another; distinct by program text.")
+RULE = ("Hypothesis draws 1-2 objects (list, map, instance) inside a function or at module level (drawn), 1-3 aliases of "
+        "each at the start and further aliases at drawn later points (also directly after a mutation), held in a "
+        "local, a module variable, a field, a list element, a list-in-list element, a map value, a tuple element, a "
+        "closure capture, or as the key of a map; then a history of 4-12 mutations through drawn aliases: push of 1-4 "
+        "values, insert, pop, index assignment, remove, clear, map set/remove, field writes, and pushes / inserts done "
+        "inside helper functions whose returned alias is compared or kept (the list grows in a callee frame while "
+        "aliases live in the caller's). The generator keeps an exact account of every list's length and capacity "
+        "(literal of n: max(n, 4); growth: max(2 cap, needed)) and steers a third of the list mutations to the "
+        "capacity boundary. Each step is followed by 0-3 observations: alias == alias directly and through a helper "
+        "(same and different objects), lookups in maps keyed by the object, list.has/index and tuple.has/index of the "
+        "object, and reads through the list's own natives ([0], has, index, slice, len, str). Output is compared with "
+        "the reference evaluator (objects carry an immutable identity) on debug and release workers. Known finding "
+        "hazard: an alias kept where the vm does not rewrite pointers after a move (capture -- decided up front because "
+        "a captured local is boxed from its declaration --, module variable, two levels deep, map key) may be created "
+        "at any time, but from then on that list is only mutated within its capacity. Shrinking only cuts the history "
+        "short and deletes observations, so the account stays valid. Non-trivial: >= 3 observations and (a list grew or "
+        "a map / instance was mutated); distinct by program text.")
 ASSUMPTIONS = ["reference evaluator's identity model (python object identity)"]
-GATES = {"nontrivial": 0.40}
+GATES = {"nontrivial": 0.40, "list-grew": 0.25}
 LEVEL_TEXT = "Model-based search over generated alias/mutation/observation histories."
 LEVEL_NOTE = "Trusted base: reference evaluator, printer, worker harness."
 TECHNIQUE = "property-based testing (Hypothesis): model-based oracle over generated mutation histories with aliases"
@@ -31,18 +38,21 @@ def cases(tier):
 
 
 def strategy(hazards):
-    return gen.alias_program(gen.Cfg(max_depth=2, p_confuse=0, hazards=hazards))
+    return gen.alias_scenario(gen.Cfg(max_depth=2, p_confuse=0, hazards=hazards))
 
 
 def run_case(case, ctx):
-    prog = case
+    if isinstance(case, tuple) and len(case) == 2 and isinstance(case[1], dict):
+        prog, meta = case
+    else:
+        prog, meta = case, None  # replays saved before the generator reported its own account
     src, lines = printer.to_source(prog)
     res, why = run_model(prog, lines)
     if res is None:
         return Outcome(discarded=why)
     grew = res.counts.get("list_grow", 0) >= 1
     labels = ["outcome:" + res.outcome] + (["list-grew"] if grew else [])
-    nontrivial = len(res.out) >= 3
+    nontrivial = len(res.out) >= 3 and (grew or "let o0 = [" not in src or "let o1 = {" in src or "let o1 = Box" in src)
     if nontrivial:
         labels.append("nontrivial")
     fail = None
@@ -54,8 +64,58 @@ def run_case(case, ctx):
         if fail is not None:
             if grew and fail.sig.endswith("/stdout"):
                 # classify: did the list that grew have aliases in storage the vm does not rewrite after a move?
-                mixed = any(t in src for t in ("_capture", "_elem2", "_keyed[")) or \
-                    ("fn main" in src and ("modA =" in src or "modB =" in src))
+                if meta is not None:
+                    mixed = bool(meta.get("unsafe_growth"))
+                else:
+                    mixed = any(t in src for t in ("_capture", "_elem2", "_keyed")) or \
+                        ("fn main" in src and ("modA =" in src or "modB =" in src))
                 fail.sig = "%s/identity-split-after-list-growth/%s" % (PROPERTY, "mixed-storage" if mixed else "same-storage")
             break
     return Outcome(key=src, nontrivial=nontrivial, labels=labels, failure=fail, sample=short(src, 900), runs=runs)
+
+
+def _body(prog):
+    """-> (path to the statement list holding the history, that list)"""
+    for i, st_ in enumerate(prog):
+        if st_[0] == "fn" and st_[1] == "main":
+            return i, st_[3]
+    return None, prog
+
+
+def _with_body(prog, i, body):
+    if i is None:
+        return body
+    f = prog[i]
+    return prog[:i] + [("fn", f[1], f[2], body)] + prog[i + 1:]
+
+
+def _is_observation(st_):
+    return st_[0] == "print" or (st_[0] == "try" and st_[1] and st_[1][0][0] == "print")
+
+
+def shrink(case, still_fails):
+    """Only reductions that keep the generator's account of lengths, capacities and alias storage valid: cut the
+    history short, then delete observations (prints change nothing)."""
+    if not (isinstance(case, tuple) and len(case) == 2 and isinstance(case[1], dict)):
+        return case
+    prog, meta = case
+    i, body = _body(prog)
+    fixed = 0 if i is not None else next((k for k, st_ in enumerate(body) if st_[0] == "let" and st_[1].startswith("o")), 0)
+    lo, hi = fixed, len(body)
+    # shortest failing prefix (failures are monotone in the prefix: the first wrong line stays wrong)
+    while hi - lo > 1:
+        mid = (lo + hi) // 2
+        if still_fails((_with_body(prog, i, body[:mid]), meta)):
+            hi = mid
+        else:
+            lo = mid
+    if hi < len(body) and still_fails((_with_body(prog, i, body[:hi]), meta)):
+        body = body[:hi]
+    k = len(body) - 2
+    while k >= 0:
+        if _is_observation(body[k]):
+            cand = body[:k] + body[k + 1:]
+            if still_fails((_with_body(prog, i, cand), meta)):
+                body = cand
+        k -= 1
+    return (_with_body(prog, i, body), meta)
